@@ -67,6 +67,9 @@ struct HPca : Harness {
     p.seti("transform", (int)wr.below(3));  // C02: 0 permute objects, 1 permute variables, 2 rotate
     p.setd("rho", wr.uniform(0.3, 0.85));
     p.setd("scale_exp", wr.chance(0.5) ? 1.0 : wr.uniform(-2.0, 3.0));
+    // C02 only: the documented criterion is relative, so the unit of the data must not matter.  Options 0 and -1 keep the unit; very
+    // small and very large units are drawn for them (the other options divide by a column statistic and are scale free)
+    if (prop == "C02" && p.geti("scaling") <= 0 && wr.chance(0.5)) p.setd("scale_exp", wr.chance(0.7) ? wr.uniform(-6.0, -2.0) : wr.uniform(3.0, 6.0));
     p.seti("axis_aligned", wr.chance(0.2) ? 1 : 0);  // overall magnitude of the singular values
     p.setu("data.seed", wr.next() >> 4);
     return p;
@@ -89,7 +92,8 @@ struct HPca : Harness {
       std::vector<LD> s(r); LD cur = powl(10.0L, (LD)p.getd("scale_exp", 1.0)) * (1 + dr.unit() * 5);
       for (int k = 0; k < r; k++) { s[k] = cur; cur *= rho * dr.uniform(0.6, 1.0); }
       for (int i = 0; i < n; i++) for (int j = 0; j < pp; j++) { LD v = 0; for (int k = 0; k < r; k++) v += U[i][k] * s[k] * V[j][k]; X[i][j] = (double)v; }
-      for (int j = 0; j < pp; j++) { double off = dr.uniform(-20, 20); if (scaling == 5 && fabs(off) < 1) off = off < 0 ? -1.5 : 1.5; for (int i = 0; i < n; i++) X[i][j] += off; }
+      double se = p.getd("scale_exp", 1.0), ounit = (scaling == -1 && (se < -2 || se > 3)) ? pow(10.0, se - 1) : 1.0;  // without centring the offsets are data: keep them in the unit of the data
+      for (int j = 0; j < pp; j++) { double off = dr.uniform(-20, 20) * ounit; if (scaling == 5 && fabs(off) < 1) off = off < 0 ? -1.5 : 1.5; for (int i = 0; i < n; i++) X[i][j] += off; }
       return X;
     }
     for (int j = 0; j < pp; j++) {
